@@ -74,12 +74,13 @@ def param_key(view, ai, key):
     return None
 
 
-# Implicit sites (bounds checks, slice ranges, split_at, ...) are inventoried everywhere except in the division and
-# GCD kernels and in add.rs (adc_n / sbb_n, which only the division kernel calls): there every index depends on
-# run-time lengths and quotient digits and is the value contract of C12 / C14 (not applicable).  The multiplication
-# kernels, cmp, the shift helpers and the double-word ops ARE in scope: their indices are decided by the interval
-# engine (equal-length assumptions, min(), Rev<Range>, tuple-carried slice lengths).
-KERNEL_OUT_OF_SCOPE = ()
+# Implicit sites (bounds checks, slice ranges, split_at, ...) of the division and GCD kernels are inventoried by the
+# properties that are about those kernels (C14, C12; C11 for mul_redc.rs): there the indices depend on run-time
+# lengths and are decided by D-lin (vcheck/linear.py).  For every other property that merely *reaches* the kernels
+# (C03, C10, C13, ...) they stay trusted leaves, so that a restructuring of a kernel the linear domain cannot follow
+# is reported once, by the property that owns the kernel, not by every property above it.  The multiplication
+# kernels, cmp, the shift helpers and the double-word ops are in everybody's scope (interval engine).
+KERNEL_OUT_OF_SCOPE = ("src/algorithms/div", "src/algorithms/gcd")
 
 
 def default_implicit_scope(body):
@@ -1251,7 +1252,7 @@ class Totality:
                     if 0 <= c < (1 << bits) or (bits == 0 and c == 0):
                         self.discharge_log.append((key, cfg, "local-call", name, "D-lit %d < 2^%d" % (c, bits)))
                         continue
-            for tk in targets:
+            for tk in (targets if implicit_ok else ()):
                 for miss in self._linear_preconditions(view, bi, t, tk):
                     self.stats["sites"] += 1
                     out.append(Residual(key, "precondition", "%s requires %s" % (tk.rsplit("::", 1)[-1], miss), view.where(bi),
